@@ -5,6 +5,7 @@
 From Coq Require Import ZArith List Bool Reals Lra Lia.
 From Coquelicot Require Import Coquelicot.
 From CV Require Import Base.Num Base.RNum C18.ValueModel C06.RestraintModel C01.ForceModel C01.ForceProofs.
+From CV Require Import C01.SuperposModel C01.SuperposProofs.
 Import ListNotations.
 Local Open Scope R_scope.
 
@@ -205,6 +206,35 @@ Theorem C01_forces_are_minus_gradient : forall (cf : config) (s : SYS),
 Proof. exact forces_are_minus_gradient. Qed.
 Print Assumptions C01_forces_are_minus_gradient.
 
+(* ---- run-time modifications of the superposition (SuperposModel.v) ----------------------------------------------
+   A state = live componentCoeff / componentExp / active flag of every component + the flags colvar::init computed
+   once (linear, homogeneous, periodic, period).  Events: modifycvcs (coefficient and/or exponent of one component),
+   cvcflags.  No event refreshes the flags: after any history they are those of the initial parameters. *)
+Theorem C01_history_keeps_flags : forall (h : list (@event R)) (sts : list (@vstate R)),
+  map vflags (run_history h sts) = map vflags sts.
+Proof. exact history_keeps_flags. Qed.
+Print Assumptions C01_history_keeps_flags.
+(* For every initial superposition, every list of biases and EVERY history of modifications: the forces applied in the
+   state reached are minus the gradient of the energy reported in that state (same guards as the closed statement,
+   taken at the live parameters) -- whether or not the stored flags still describe the live parameters. *)
+Theorem C01_history_forces_are_minus_gradient :
+  forall cell (descr : list (R * list (@scvc R))) bs (h : list (@event R)) (s : SYS),
+  let cf := effective cell (state_after Rops descr h) bs in
+  (forall v c, In v (cf_vars cf) -> In c (cv_cvcs v) -> cvc_guard (cf_cell cf) c s) ->
+  (forall b, In b (cf_biases cf) -> bias_guard b (cf_vars cf) (var_values Rops PI cf s)) ->
+  forall a k, (a < length s)%nat ->
+    is_derive (fun t => h_energy Rops PI cell descr bs h (set_coord s a k t)) (coord Rops s a k)
+              (- vget k (nth a (h_forces Rops PI cell descr bs h s) (vzero Rops))).
+Proof. exact history_forces_are_minus_gradient. Qed.
+Print Assumptions C01_history_forces_are_minus_gradient.
+(* why communicate_forces must read the exponent and not the stored flag: for exponent 2 the linear branch f * coeff
+   differs from the force of the model whenever the force is non-zero and the component value is not 1/2 *)
+Theorem C01_flag_branch_differs : forall cell (s : SYS) f (c : cvc),
+  c_exp c = 2%Z -> f * c_coeff c <> 0 -> cvc_value Rops PI cell c s <> / 2 ->
+  cvc_force_by_flag true cell s f c <> cvc_force Rops PI cell s f c.
+Proof. exact flag_branch_differs. Qed.
+Print Assumptions C01_flag_branch_differs.
+
 (* ---- non-vacuity ------------------------------------------------------------------------------------------------ *)
 Example C01_example_grp : grp_ok ex_sys ex_g1 /\ grp_ok ex_sys ex_g2.
 Proof. exact ex_grp. Qed.
@@ -232,3 +262,14 @@ Proof. exact ex_periodic. Qed.
 (* the solver hypothesis of C01_grad_correct_rmsd is inhabited (all-zero reference: every unit quaternion is optimal) *)
 Example C01_example_qopt : qopt_ok [vzero Rops; vzero Rops; vzero Rops] (fun _ => (1, 0, 0, 0)).
 Proof. exact ex_qopt. Qed.
+(* a non-empty history (modifycvcs "componentCoeff 2 componentExp 2" on a variable read as linear) after which the flag
+   `linear` is stale, and for which all premises of C01_history_forces_are_minus_gradient hold *)
+Example C01_example_stale :
+  map (@vs_linear R) (state_after Rops ex_descr ex_hist) = [true] /\
+  map (fun st => map (fun c => c_exp (sc_cvc c)) (vs_comps st)) (state_after Rops ex_descr ex_hist) = [[2%Z]].
+Proof. exact ex_stale. Qed.
+Example C01_example_history_guards :
+  let cf := effective None (state_after Rops ex_descr ex_hist) (cf_biases ex_cf) in
+  (forall v c, In v (cf_vars cf) -> In c (cv_cvcs v) -> cvc_guard (cf_cell cf) c ex_sys) /\
+  (forall b, In b (cf_biases cf) -> bias_guard b (cf_vars cf) (var_values Rops PI cf ex_sys)).
+Proof. exact ex_hist_guards. Qed.
